@@ -49,7 +49,7 @@ inline void swarmEnv(Plan& p, Rng& r, bool readFaults, bool writeFaults, bool bi
 
 inline std::string randName(Rng& r, size_t minLen, size_t maxLen, bool punct) {
 	static const std::string alnum = "abcdefghijklmnopqrstuvwxyzABCDEFGHIJKLMNOPQRSTUVWXYZ0123456789";
-	static const std::string extra = "_-.~!@#$^&()+={}[],;' ";
+	static const std::string extra = "_-.~!@#$^&()+={}[],;' `|";
 	size_t n = static_cast<size_t>(r.range(minLen, maxLen));
 	std::string s;
 	for (size_t i = 0; i < n; ++i) {
@@ -57,6 +57,19 @@ inline std::string randName(Rng& r, size_t minLen, size_t maxLen, bool punct) {
 		else s.push_back(extra[r.below(extra.size())]);
 	}
 	return s;
+}
+
+// A name that differs from `base` only in characters whose codes differ by 0x20 without being the two
+// cases of one letter ('@'/'`', '['/'{', ']'/'}', '^'/'~', '\\'/'|'): a correct case-insensitive comparison
+// keeps such names apart, a bit-trick folding equates them. Returns "" if `base` has no such character.
+inline std::string bit5Sibling(const std::string& base, Rng& r) {
+	std::vector<size_t> at;
+	for (size_t i = 0; i < base.size(); ++i) { char c = base[i]; if (c == '@' || c == '`' || c == '[' || c == '{' || c == ']' || c == '}' || c == '^' || c == '~' || c == '|') at.push_back(i); }
+	if (at.empty()) return "";
+	std::string s = base;
+	size_t n = 1 + static_cast<size_t>(r.below(at.size()));
+	for (size_t k = 0; k < n; ++k) { size_t i = at[r.below(at.size())]; if (s[i] == '|') continue; s[i] = static_cast<char>(base[i] ^ 0x20); }
+	return s == base ? "" : s;
 }
 
 } // namespace sim
